@@ -1,11 +1,15 @@
 package main
 
 import (
+	"bytes"
 	"fmt"
+	"path/filepath"
 	"sort"
 	"strings"
 
 	"github.com/elastos/Elastos.ELA/common"
+	"github.com/elastos/Elastos.ELA/core/checkpoint"
+	"github.com/elastos/Elastos.ELA/mempool"
 	"verif/harness/internal/rep"
 )
 
@@ -147,6 +151,74 @@ func (w *world) poolCheck(st rep.Step) (string, string) {
 	}
 	if w.n.Pool.GetTransactionCount() != len(snap.Txs) {
 		return "C34:count", "GetTransactionCount disagrees with the pool"
+	}
+	if ckpMode {
+		if key, d := w.poolCheckpointRoundTrip(snap); key != "" {
+			return key, d
+		}
+	}
+	return "", ""
+}
+
+// poolCheckpointRoundTrip (C23, mempool part): the checkpoint the manager would
+// save (Snapshot -> Serialize) is loaded into a fresh pool on the same chain
+// (Deserialize, the path loadDefaultCheckpoint takes at start-up); the restored pool
+// must hold the same transactions with the same fee list, size accounting and
+// conflict slots.
+func (w *world) poolCheckpointRoundTrip(live *mempool.VerifSnapshot) (string, string) {
+	cp := w.n.Pool.Snapshot()
+	if cp == nil {
+		return "C23:mempool-checkpoint:snapshot", "Snapshot returned nil"
+	}
+	var buf bytes.Buffer
+	if err := cp.Serialize(&buf); err != nil {
+		return "C23:mempool-checkpoint:serialize", err.Error()
+	}
+	saved := append([]byte(nil), buf.Bytes()...)
+	r := bytes.NewReader(saved)
+	if _, err := common.ReadUint32(r); err != nil {
+		return "C23:mempool-checkpoint:format", err.Error()
+	}
+	cnt, _ := common.ReadVarUint(r, 0)
+	if int(cnt) != len(live.Txs) {
+		return "C23:mempool-checkpoint:transactions-lost", fmt.Sprintf(
+			"the saved mempool checkpoint holds %d transactions, the pool %d", cnt, len(live.Txs))
+	}
+	ck2 := checkpoint.NewManager(w.n.Params)
+	ck2.SetDataPath(filepath.Join(w.n.Dir, "ckp2"))
+	p2 := mempool.NewTxPool(w.n.Params, ck2)
+	if maxPool > 0 {
+		p2.VerifSetMaxSize(uint64(maxPool))
+	}
+	if err := p2.Deserialize(bytes.NewReader(saved)); err != nil {
+		return "C23:mempool-checkpoint:deserialize", err.Error()
+	}
+	got := p2.VerifSnapshot()
+	name := func(hs []common.Uint256) string {
+		var s []string
+		for _, h := range hs {
+			s = append(s, w.nameOf(h))
+		}
+		sort.Strings(s)
+		return strings.Join(s, ",")
+	}
+	if name(got.Txs) != name(live.Txs) {
+		return "C23:mempool-restore:transactions", fmt.Sprintf("restored pool holds [%s], the saved one [%s]", name(got.Txs), name(live.Txs))
+	}
+	if got.TotalSize != live.TotalSize {
+		return "C23:mempool-restore:size-accounting", fmt.Sprintf("restored totalSize %d, saved %d", got.TotalSize, live.TotalSize)
+	}
+	if len(got.FeeList) != len(live.FeeList) {
+		return "C23:mempool-restore:fee-list", fmt.Sprintf("restored fee list has %d entries, saved %d", len(got.FeeList), len(live.FeeList))
+	}
+	for i := range got.FeeList {
+		if got.FeeList[i].Hash != live.FeeList[i].Hash && got.FeeList[i].FeeRate != live.FeeList[i].FeeRate {
+			return "C23:mempool-restore:fee-list", fmt.Sprintf("fee list entry %d differs after restore", i)
+		}
+	}
+	if len(got.Slots["TxInputsReferKeys"]) != len(live.Slots["TxInputsReferKeys"]) {
+		return "C23:mempool-restore:slots", fmt.Sprintf("restored input slot holds %d keys, saved %d",
+			len(got.Slots["TxInputsReferKeys"]), len(live.Slots["TxInputsReferKeys"]))
 	}
 	return "", ""
 }
